@@ -365,8 +365,15 @@ fn faults<B: Backend>(acc: &mut Acc) {
     for rep in 0..reps {
         let fx = fixture::<B>(mix(acc.seed, fnv(name.as_bytes()) ^ rep));
         for op in OPS {
-            if op == Op::Sign || (op == Op::RandomSecret && B::VER == Ver::V1) {
-                continue; // no getrandom draws (deterministic signatures / rsa::OsRng)
+            if op == Op::Sign {
+                continue; // no getrandom draws (deterministic signatures / randomised signers draw elsewhere)
+            }
+            // v1 key generation draws through rsa::OsRng (getrandom 0.2, not injectable) on the
+            // unchanged tree; should it ever draw through the injectable source, a sample of its
+            // many draw indices is failed (each case is an RSA key generation)
+            let v1_keygen = op == Op::RandomSecret && B::VER == Ver::V1;
+            if v1_keygen && rep > 0 {
+                continue;
             }
             // discover the draw indices from a clean run
             rng::begin_op();
@@ -376,12 +383,22 @@ fn faults<B: Backend>(acc: &mut Acc) {
                 acc.fail(Fail::new(format!("C16/{name}/{op:?}/clean-run-failed"), "operation failed without any fault".to_string()), json!({"op": format!("{op:?}")}));
                 continue;
             }
+            if log.is_empty() && v1_keygen {
+                acc.class("fault:v1-keygen-not-injectable(rsa::OsRng)");
+                continue;
+            }
             if log.is_empty() {
                 acc.fail(Fail::new(format!("C16/{name}/{op:?}/no-draws"), "a randomised operation made no RNG draw".to_string()), json!({"op": format!("{op:?}")}));
                 continue;
             }
-            for k in 0..log.len() {
-                for fill in 0..3u8 {
+            let indices: Vec<usize> = if v1_keygen {
+                let pick = acc.tier.pick(vec![0usize, 1, 2, 5], vec![0, 1, 2, 3, 5, 8, 13, 21, 34, 55, 89, 144]);
+                pick.into_iter().filter(|k| *k + 1 < log.len()).collect()
+            } else {
+                (0..log.len()).collect()
+            };
+            for k in indices {
+                for fill in 0..(if v1_keygen { 1u8 } else { 3u8 }) {
                     let c = FaultCase { op, draw_index: k, fill, first_draw_fill: None };
                     total += 1;
                     acc.check(&c, |acc| fault_one::<B>(acc, &fx, &c));
